@@ -48,7 +48,7 @@ constexpr bool kDropping = (RtFrontendOptions::queue_type == quill::QueueType::B
   (RtFrontendOptions::queue_type == quill::QueueType::UnboundedDropping);
 constexpr bool kBounded = (RtFrontendOptions::queue_type == quill::QueueType::BoundedDropping) ||
   (RtFrontendOptions::queue_type == quill::QueueType::BoundedBlocking);
-constexpr size_t kFixed = 8 + 3 * sizeof(uintptr_t) + 2 + 4 + 4;
+constexpr size_t kFixed = 8 + 3 * sizeof(uintptr_t) + 2 + 4 + (kDropping ? 1 : 4); // dropping flavours log the padding as a C string (size cache)
 
 Params g_params;
 std::string g_prop = "C03";
@@ -259,7 +259,15 @@ void run_case(Choices& c, Report& r)
               if (!kBounded && !kDropping && len + kFixed > RT_MAX) len = 16;
               std::string pad = make_pad(w, seq, len);
               bool ok = false;
-              try { ok = lg->template log_statement<false, false>(quill::LogLevel::None, &kMd, static_cast<uint16_t>(w), seq, pad); }
+              try
+              {
+                if constexpr (kDropping)
+                {
+                  char const* cpad = pad.c_str();
+                  ok = lg->template log_statement<false, false>(quill::LogLevel::None, &kMd, static_cast<uint16_t>(w), seq, cpad);
+                }
+                else ok = lg->template log_statement<false, false>(quill::LogLevel::None, &kMd, static_cast<uint16_t>(w), seq, pad);
+              }
               catch (quill::QuillError const&) { ok = false; R.accepted.push_back(2); ++seq; continue; }
               R.accepted.push_back(ok ? 1 : 0);
               if (ok) last_accepted_plus1 = seq + 1;
